@@ -54,15 +54,15 @@ def has_var_free_operand(f):
 
 
 KNOWN_EARLY_START = 'start-before-domain:bounded-operator-with-t0>0'
-KNOWN_EARLY_START_VALUES = 'values-before-domain-read:past-operator-over-bounded-future-with-t0>0'
+KNOWN_EARLY_START_VALUES = 'values-before-domain-read:past-operator-over-bounded-operator-with-t0>0'
 
 
 def past_over_bounded_future(f):
     for s in F.subterms(f):
         past = (s[0] == 'un' and s[1] in ('once', 'historically')) or (s[0] == 'bin' and s[1] == 'since') or \
             (s[0] == 'tun' and s[1] in ('once', 'historically')) or (s[0] == 'tbin' and s[1] == 'since')
-        if past and any((x[0] == 'tun' and x[1] in ('eventually', 'always')) or (x[0] == 'tbin' and x[1] == 'until')
-                        for c in F.children(s) for x in F.subterms(c)):
+        # (a bounded past operator below it reports -inf / +inf from time 0 on, a bounded future operator values from t0 - b on)
+        if past and any(x[0] in ('tun', 'tbin') for c in F.children(s) for x in F.subterms(c)):
             return True
     return False
 
@@ -140,7 +140,7 @@ def check(case, early_start_is_known=False):
     if bad and early_start_is_known and K0 > 0 and past_over_bounded_future(f) and _shifted_to_zero_passes(case):
         # second face of the open finding: a bounded future operator delivers values for times before t0 (computed from
         # the data after t0), and a past operator above it reads them where the semantics sees the start of the domain
-        return FAIL(KNOWN_EARLY_START_VALUES, desc + '\nresult: %r\nat t=%g rtamt gives %r, reference %r: the past operator reads values that the bounded future '
+        return FAIL(KNOWN_EARLY_START_VALUES, desc + '\nresult: %r\nat t=%g rtamt gives %r, reference %r: the past operator reads values that the bounded '
                     'operator below it reports for times before the signals start (the same case with all time stamps moved to start at 0 agrees with the reference)' % (
                         out, bad[0], bad[1], bad[2]), labels + ['early-start'])
     if bad:
